@@ -18,14 +18,17 @@ from vlib.core import short
 ID = "C15"
 LEVEL = "exploration"
 RULE = ("(a) workers on interpreters that provably cannot import execnet (python -S -E for every available CPython 3.10-3.13 and the venv "
-        "python), reached by popen//python=, through via= and as socket//installvia server, exec models thread and main_thread_only: an "
+        "python), reached by popen//python=, through via= (with and without python=), as socket//installvia server and through ssh= / "
+        "vagrant_ssh= (login shim), exec models thread and main_thread_only: an "
         "audit hook installed by the first remote_exec records every import of an 'execnet*' name, sys.modules is inspected at the end, the "
         "DSL programs of C06 must produce the predicted transcripts, line coverage of the shipped source inside the bare worker is recorded; "
         "(b) in a bare -S -E -I interpreter the exact strings bootstrap_exec / bootstrap_socket transmit and the socketserver module are "
         "exec'd with an import blocker for execnet* and every code object of the shipped source is walked: each global it loads must resolve "
         "in that namespace or builtins, no import may target execnet*; (c) the stand-alone socket server script runs on a bare interpreter and "
         "serves a socket= gateway. distinct = distinct (interpreter, path, model, program) cases + code objects walked")
-ASSUMPTIONS = ["ssh and vagrant transports cannot be run (no server): only their command lines are checked to embed the same bootstrap line"]
+ASSUMPTIONS = ["no sshd / vagrant in the sandbox: the ssh= and vagrant_ssh= paths run against vlib/shims/{ssh,vagrant}, which hand the remote "
+               "command line to a fresh /bin/sh with an empty environment (what a login on a foreign host does); real ssh quoting, "
+               "compression and network behaviour are not exercised"]
 MINIMUM = {"bare_workers": 6, "programs": 60, "code_objects_walked": 150, "standalone_server_runs": 1}
 SHARD_TIMEOUT = {"quick": 150, "thorough": 3000}
 PYENV = "/root/.pyenv/versions"
@@ -44,8 +47,9 @@ def bare_interpreters():
 def shards(tier, seed):
     out = []
     for py in bare_interpreters():
-        for path in ("popen", "via", "socket", "via_nopython"):
-            out.append({"kind": "dynamic", "python": py, "path": path, "n": 8 if tier == "quick" else (1500 if path != "via_nopython" else 200)})
+        for path in ("popen", "via", "socket", "via_nopython", "ssh", "vagrant_ssh"):
+            out.append({"kind": "dynamic", "python": py, "path": path,
+                        "n": 8 if tier == "quick" else (1500 if path in ("popen", "via", "socket") else 200)})
     for py in bare_interpreters():
         out.append({"kind": "sweep", "python": py})
     out.append({"kind": "standalone", "pythons": bare_interpreters()})
@@ -123,7 +127,7 @@ def run_dynamic(spec):
     for model in ("thread", "main_thread_only"):
         label = f"{label0}:{model}"
         group = execnet.Group()
-        saved_env = {k: os.environ.get(k) for k in ("PYTHONPATH", "EXECNET_DEBUG")}
+        saved_env = {k: os.environ.get(k) for k in ("PYTHONPATH", "EXECNET_DEBUG", "PATH")}
         # EXECNET_DEBUG selects other branches of the shipped source: they must be self-contained too
         dbg = {"thread": rng.choice((None, "1", "2")), "main_thread_only": rng.choice((None, "1"))}[model]
         try:
@@ -141,6 +145,17 @@ def run_dynamic(spec):
                 probe_on = [m, gw]
             elif spec["path"] == "popen":
                 gw = group.makegateway(bare + f"//execmodel={model}")
+                probe_on = [gw]
+            elif spec["path"] in ("ssh", "vagrant_ssh"):
+                # the login shim: the remote command line runs in a fresh shell with an empty environment
+                os.environ["PATH"] = os.path.join(core.VERIF, "vlib", "shims") + os.pathsep + os.environ.get("PATH", "")
+                host = rng.choice(("fakehost", "-p 2222 me@fakehost", "me@fakehost")) if spec["path"] == "ssh" else "default"
+                extra = rng.choice(("", "//ssh_config=/nonexistent/ssh.cfg", "//chdir=" + os.path.join(core.VERIF, "vlib"), "//env:VERIF_X=1"))
+                # "python3" is found on the login shell's PATH: the distribution's interpreter, which has no execnet
+                pyarg = rng.choice((f"{py} -S -E", "python3"))
+                if pyarg == "python3":
+                    res.count("workers_on_system_python_via_login_path")
+                gw = group.makegateway(f"{spec['path']}={host}//python={pyarg}//execmodel={model}{extra}")
                 probe_on = [gw]
             elif spec["path"] == "via":
                 m = group.makegateway(bare + "//id=master")
